@@ -65,7 +65,7 @@ def ob_key_schedule():
                     "round keys == GB/T 32907 key expansion (all keys)", named, 60)
         tables = sorted(set(n for n, _ in dom.table_uses))
         if tables != ["SBOX"]:
-            raise Violation("key schedule looks up tables %s" % tables)
+            raise Inconclusive("structure not recognised (no verdict): " + "key schedule looks up tables %s" % tables)
         return {"mir_steps": ex.steps, "sbox_applications": len(dom.table_uses)}
     return run_obligation("key_schedule_equiv", ["gm_sm4::Sm4Cipher::new", "gm_sm4::t_prime", "gm_sm4::el_prime", "gm_sm4::tau"],
                           "all 128-bit keys; S-box an uninterpreted function (its table is a separate ground obligation)", body,
